@@ -334,6 +334,9 @@ def run(model, col, tier):
               f"resolution result stored in {tgt}, which GetFunction returns", f"resolution result stored in {tgt} but GetFunction returns {gret}", ASTF, rt)
     if st:
         call = st[0].value
-        argt = [unparse(a) for a in call.args]
-        col.check(any("GetType" in a and "GetArguments" in a for a in argt), "R03.6", f"{ASTF}::CallExpression.ResolveType argument types",
+        from ..sem import local_env as _le, rtext as _rt
+
+        rt_env = _le(rt)
+        argt = [_rt(a, rt_env) for a in call.args]
+        col.check(any("GetType" in a and ("GetArguments" in a or "self.children" in a) for a in argt), "R03.6", f"{ASTF}::CallExpression.ResolveType argument types",
                   "resolution is driven by the types of the call's arguments in order", f"resolution arguments are {argt}", ASTF, rt)
